@@ -71,7 +71,7 @@ func writeEvidence(a *agg, base uint64, wall float64, reported, known, parallel,
 			"process_seeds_per_hour":         perHour(a.procs),
 			"reach_warnings":                 reach,
 			"known_findings_matched":         known,
-			"determinism_recheck":            "3 process seeds re-executed at GOMAXPROCS=1, event-log digests identical",
+			"determinism_recheck":            determinismNote,
 			"fault_kinds_fired": map[string]int{
 				"preemption-at-instrumented-statement": a.preempts, "task-switch": a.switches,
 				"cold-start (first calls in a fresh process)": a.probes["cold-start-runs"],
